@@ -298,6 +298,31 @@ impl<'a> BodyV<'a> {
             }
             return;
         }
+        if p == "params" || p == "rusqlite::params" {
+            // E16: `params![a, b, c]` (rusqlite: a slice of `&dyn ToSql`) -> `[verif_bind(a), verif_bind(b), verif_bind(c)]`: the same
+            // expressions in the same order, each rendered by the stand-in of ToSql instead of a trait object
+            use syn::punctuated::Punctuated;
+            if let Ok(args) = m.parse_body_with(Punctuated::<syn::Expr, syn::Token![,]>::parse_terminated) {
+                let (ms, _) = br(m.span());
+                let dspan = match &m.delimiter {
+                    syn::MacroDelimiter::Paren(d) => d.span,
+                    syn::MacroDelimiter::Brace(d) => d.span,
+                    syn::MacroDelimiter::Bracket(d) => d.span,
+                };
+                let (_, oe) = br(dspan.open());
+                let (cs, ce) = br(dspan.close());
+                self.push(ms, oe, "[", "E16");
+                for a in args.iter() {
+                    let (s, e) = br(a.span());
+                    self.push(s, s, "verif_bind(", "E16");
+                    self.push(e, e, ")", "E16");
+                }
+                self.push(cs, ce, "]", "E16");
+            } else {
+                self.errs.push("unsupported: params! with arguments that are not a comma-separated expression list".to_string());
+            }
+            return;
+        }
         let repl = match p.as_str() {
             "anyhow::anyhow" | "anyhow" => Some("verif_anyhow!()"),
             "anyhow::bail" | "bail" => Some("verif_bail!()"),
